@@ -1,5 +1,5 @@
 """Run the C18 correspondence in shards: harness (impl) / npdriver mgr (model) / npdriver mgrspec (spec oracle)."""
-import collections, os, subprocess
+import collections, os, re, subprocess
 from concurrent.futures import ThreadPoolExecutor
 import common
 
@@ -13,15 +13,15 @@ def run_model(wd):
     with open(os.path.join(wd, 'spec'), 'w') as o:
         subprocess.run([common.DRIVER, 'mgrspec', ops, impl], stdout=o, check=True, timeout=3600)
 
-def run_shard(binary, wd, seed, mode, n, nops=40):
+def run_shard(binary, wd, seed, mode, n, nops=40, deadline=0):
     os.makedirs(wd, exist_ok=True)
-    p = subprocess.run([binary, '-seed', str(seed), '-mode', mode, '-n', str(n), '-ops', str(nops),
+    p = subprocess.run([binary, '-seed', str(seed), '-mode', mode, '-n', str(n), '-ops', str(nops), '-deadline', str(deadline),
                         '-ops-out', os.path.join(wd, 'ops'), '-impl-out', os.path.join(wd, 'impl')],
                        stdout=subprocess.PIPE, stderr=subprocess.STDOUT, text=True, timeout=3600)
     run_model(wd)
     r = analyse(wd, mode)
     if p.returncode != 0:
-        r['problems'].append(([], 0, 'harness-exit', 'harness exit code %d: %s' % (p.returncode, p.stdout[-500:])))
+        r['problems'].append(([], 0, 'harness-exit', 'harness exit code %d: %s' % (p.returncode, p.stdout[-500:]), False))
     return r
 
 def split_scn(ops):
@@ -38,7 +38,7 @@ def analyse(wd, mode):
            'in_contract': 0, 'out_contract': 0, 'samples': [], 'rets': 0, 'phases': 0, 'mode': mode}
     n = min(len(ops), len(impl), len(model), len(spec))
     if not (len(ops) == len(impl) == len(model) == len(spec)):
-        res['problems'].append((ops[:1], 0, 'stream-length', 'ops=%d impl=%d model=%d spec=%d' % (len(ops), len(impl), len(model), len(spec))))
+        res['problems'].append((ops[:1], 0, 'stream-length', 'ops=%d impl=%d model=%d spec=%d' % (len(ops), len(impl), len(model), len(spec)), False))
     cur = None; start = 0; bad = False; sched = []
     def close_scn(i):
         if cur is not None and i > start + 1:
@@ -68,20 +68,33 @@ def analyse(wd, mode):
             kind = 'impl-model-differ'
         if kind:
             bad = True
-            res['problems'].append((list(cur), i - start, kind, 'op=%s | impl=%s | model=%s | spec=%s' % (o, impl[i][:400], model[i][:400], sp[:300])))
+            res['problems'].append((list(cur), i - start, kind, 'op=%s | impl=%s | model=%s | spec=%s' % (o, impl[i][:400], model[i][:400], sp[:300]),
+                                    timing_only(impl[i], model[i])))
     close_scn(n)
     for _, s in split_scn(ops)[:2]:
         res['samples'].append(' ; '.join(s[:40]))
     return res
 
-def run_many(binary, base_wd, seed, shards, mode, n, nops=40):
-    out = []
-    with ThreadPoolExecutor(max_workers=min(16, shards)) as ex:
-        futs = [ex.submit(run_shard, binary, os.path.join(base_wd, '%s%d' % (mode, i)), seed * 1000 + i, mode, n, nops)
-                for i in range(shards)]
-        for f in futs:
-            out.append(f.result())
+def run_many(binary, base_wd, seed, shards, mode, n, nops=40, deadline=0, tag='', pool=None):
+    """submit the shards of one mode; returns the futures if a shared pool is given, else the results"""
+    own = pool is None
+    ex = pool or ThreadPoolExecutor(max_workers=min(12, shards))
+    futs = [ex.submit(run_shard, binary, os.path.join(base_wd, '%s%s%d' % (mode, tag, i)), seed * 1000 + i, mode, n, nops, deadline)
+            for i in range(shards)]
+    if not own:
+        return futs
+    out = [f.result() for f in futs]
+    ex.shutdown()
     return out
+
+_TIMING_FIELDS = re.compile(r'(live|closed|alive)=\S*')
+
+def timing_only(impl, model):
+    """could slowness alone explain this disagreement?  (a Pick / probe / descriptor close that has not
+    happened YET: 'hang', or lines that differ only in the census, the closed set and the probed-alive set)"""
+    if impl.startswith('hang') or impl.startswith('toolong'):
+        return True
+    return _TIMING_FIELDS.sub('', impl) == _TIMING_FIELDS.sub('', model)
 
 def replay_ops(binary, ops_lines, wd):
     os.makedirs(wd, exist_ok=True)
@@ -92,5 +105,5 @@ def replay_ops(binary, ops_lines, wd):
     run_model(wd)
     r = analyse(wd, 'replay')
     if p.returncode != 0:
-        r['problems'].append(([], 0, 'harness-exit', 'harness exit code %d: %s' % (p.returncode, p.stdout[-500:])))
+        r['problems'].append(([], 0, 'harness-exit', 'harness exit code %d: %s' % (p.returncode, p.stdout[-500:]), False))
     return r
